@@ -133,7 +133,7 @@ def _sized(t: Tally, entry, kind, data, r, k, case, progress=False):
     return True
 
 
-def _socket(t: Tally, entry, data, r, k, case, allow_close=True, max_execs=300_000, progress=False):
+def _socket(t: Tally, entry, data, r, k, case, allow_close=True, max_execs=300_000, progress=False, msg_max=None):
     horizon = len(data) // 7 + 2
     import contextlib
     import io as _io
@@ -157,13 +157,16 @@ def _socket(t: Tally, entry, data, r, k, case, allow_close=True, max_execs=300_0
                 if len(items) > horizon:
                     return (tuple(items), "horizon")
 
-    ex = EnvExplorer(data, drive, allow_close=allow_close, max_execs=max_execs)
+    ex = EnvExplorer(data, drive, allow_close=allow_close, max_execs=max_execs, msg_max=msg_max)
 
     def check(e):
         # the finite source is what the peer sends before it closes: everything, unless this execution took the close alternative.  A generator
         # that stops while the peer is still open and has more to send has left that remainder unconsumed.
         delivered = data[:e.sock.delivered] if e.sock.closed else data
         why = _judge(list(e.obs[0]), e.obs[1], delivered, k)
+        if e.sock.truncated and why is None:
+            why = (f"{e.sock.truncated} byte(s) of a message were lost: recv() was called with a size smaller than the read size the caller configured, "
+                   "on a message-preserving socket")
         if why and not e.sock.closed and e.sock.delivered < len(data):
             why += " (the generator stopped although the peer had neither closed nor finished sending)"
         return None if why is None else (why, e.obs, e.sock.delivered)
@@ -222,6 +225,10 @@ def _task_streams(task):
                 for r in rs:
                     if L:
                         _socket(t, entry, stream, r, k, case)
+                if L and len(seq) <= 2 and entry == "ccsds":
+                    # a message-preserving socket (SOCK_SEQPACKET, datagrams): every message fits the configured read size, so nothing may get lost
+                    for rr in (7, 16):
+                        _socket(t, entry, stream, rr, k, {**case, "message_socket": rr}, msg_max=rr)
                 if L and len(seq) <= 2:
                     # the progress display with a source of unknown length (the clock is owned, so the state space stays finite)
                     _socket(t, entry, stream, 3, k, {**case, "show_progress": True}, progress=True)
@@ -406,7 +413,7 @@ def run(ctx):
         "programs": tally.programs,
         "exhaustive": True,
         "bound": (f"every sequence of 1..{max_len} palette packets x prefix lengths {ks} cut at EVERY byte offset, for bytes, "
-                  "BytesIO with every read size (and with show_progress=True), a gzip file object and a BufferedReader over a 3-bytes-per-read raw stream (read sizes None, 7), read/write file handles as a producer leaves them (w+b, TemporaryFile, r+b appended, the generator object created before the writes / before the caller reads from the handle; 3..400 records written one write() each and not flushed; whole and cut by 1 or 9 bytes), and a scripted socket where the peer may close at every recv() choice point (also with show_progress=True on the streams of <= 2 packets) "
+                  "BytesIO with every read size (and with show_progress=True), a gzip file object and a BufferedReader over a 3-bytes-per-read raw stream (read sizes None, 7), read/write file handles as a producer leaves them (w+b, TemporaryFile, r+b appended, the generator object created before the writes / before the caller reads from the handle; 3..400 records written one write() each and not flushed; whole and cut by 1 or 9 bytes), and a scripted socket where the peer may close at every recv() choice point (also with show_progress=True, and as a message-preserving socket whose messages fit the read size, on the streams of <= 2 packets) "
                   "under every fragmentation; all byte strings of length <= 2; all strings of length <= "
                   f"{8 if ctx.quick else 9} over {{00,01,FF}}; both ccsds_generator and packet_generator(header-only definition)"),
         "rule": ("one evaluation = one complete execution of a generator over one (stream, cut point / close point, source, read size, "
@@ -429,7 +436,7 @@ def replay(case):
                 if sched:
                     return min(sched.pop(0), remaining, n if n and n > 0 else remaining)
                 return min(n if n and n > 0 else remaining, remaining)
-            sock = ScriptedSocket(data, decide, inspect=False)
+            sock = ScriptedSocket(data, decide, inspect=False, msg_max=case.get("message_socket"))
             with observed_warnings():
                 import contextlib
                 import io as _io
@@ -441,6 +448,8 @@ def replay(case):
                     items, end = [], "livelock"
             got = [_raw(case["entry"], i) for i in items]
             why = _judge(got, end if isinstance(end, str) else end[0], data[:sock.delivered] if sock.closed else data, case["k"])
+            if why is None and sock.truncated:
+                why = f"{sock.truncated} byte(s) of a message were lost on a message-preserving socket"
             if why:
                 return {"sig": {"kind": "termination" if end != "stop" else "framing", "source": "socket"},
                         "case": case, "note": why, "observed": {"n_items": len(got), "end": end}}
